@@ -34,7 +34,7 @@ ASSUMPTIONS = ["multi-port neq entries are not in the seeds (C19 owns them)", "i
                "state after a raising call is not judged: the sequence ends"]
 
 OPS = ["platform", "port_nr", "protocol_nr", "reseq10", "reseq1", "reseq0", "group", "ungroup", "sort", "reverse", "insert",
-       "append", "pop", "copy", "data", "reparse", "delete_shadow", "ungroup_ports"]
+       "append", "pop", "copy", "data", "reparse", "delete_shadow", "ungroup_ports", "adopt", "delete_shadow_nc"]
 OPS8 = ["platform", "port_nr", "reseq10", "group", "sort", "copy", "delete_shadow", "reverse"]
 
 SEEDS = [
@@ -64,6 +64,9 @@ SEEDS = [
     {"name": "handmade-groups", "platform": "ios", "kwargs": {}, "handmade": [2, 1, 3],
      "lines": ["10 remark block one", "20 permit tcp any host 10.1.1.1 eq 80", "30 permit udp any any eq 53",
                "40 remark block two", "50 permit tcp 10.2.0.0 0.0.255.255 any eq 22", "60 deny tcp any any eq 22", "70 deny ip any any"]},
+    {"name": "nc-and-plain-shadows", "platform": "ios", "kwargs": {},
+     "lines": ["permit tcp 10.0.0.0 0.0.3.3 any eq 80", "permit tcp host 10.0.1.1 any eq 80", "permit udp any any eq 53",
+               "permit udp host 10.9.9.9 any eq 53", "deny ip any any"]},
     {"name": "numbered-dups", "platform": "ios", "kwargs": {},
      "lines": ["10 permit icmp any any", "20 permit tcp any any eq 25", "20 permit tcp any any eq 25", "30 remark dup", "30 remark dup",
                "40 permit icmp any any", "50 deny ip 10.0.0.0 0.255.255.255 any"]},
@@ -133,7 +136,7 @@ def _packet_meaning(item):
 
     m = {"action": act, "proto": proto, "src": cubes(src), "dst": cubes(dst), "sport": mdl._port_set(sport),
          "dport": mdl._port_set(dport), "flags": frozenset(flags), "group": src[0] == "group" or dst[0] == "group",
-         "nc": False, "outside": False, "line": ""}
+         "nc": any(a[0] == "cube" and not bits.is_contiguous(a[2]) for a in (src, dst)), "outside": False, "line": ""}
     return m
 
 
@@ -188,6 +191,7 @@ def run_sequence(ctx, seed: dict, ops: list, digests: dict) -> None:
     model.top = obs  # the seed defines the initial state
     uniq = 0
     history = []
+    rng_names = ["www", "ftp", "telnet", "smtp", "domain", "bgp"]
     ctx.count("sequences_run")
     for step, op in enumerate(ops):
         history.append(op)
@@ -228,6 +232,17 @@ def run_sequence(ctx, seed: dict, ops: list, digests: dict) -> None:
                 pred = model.insert(0, _sem_to_item(reader.read_ace(text)))
                 acl.insert(0, Ace(text, platform=acl.platform, version=str(acl.version), port_nr=acl.port_nr,
                                   protocol_nr=acl.protocol_nr))
+            elif op == "adopt":
+                # an entry built elsewhere with default switches is inserted, then the ACL's switches are assigned their
+                # current values again: that re-applies them to every entry (the ACL renders one consistent spelling)
+                uniq += 1
+                text = f"permit tcp host 10.251.0.{uniq} any eq {rng_names[uniq % len(rng_names)]}"
+                pred = model.insert(0, _sem_to_item(reader.read_ace(text)))
+                model.switch("port_nr")
+                model.switch("port_nr")
+                acl.insert(0, Ace(text, platform=acl.platform, version=str(acl.version)))
+                acl.port_nr = acl.port_nr
+                acl.protocol_nr = acl.protocol_nr
             elif op == "append":
                 uniq += 1
                 text = f"remark appended {uniq}"
@@ -248,15 +263,16 @@ def run_sequence(ctx, seed: dict, ops: list, digests: dict) -> None:
             elif op == "ungroup_ports":
                 pred = model.ungroup_ports()
                 acl.ungroup_ports()
-            elif op == "delete_shadow":
+            elif op in ("delete_shadow", "delete_shadow_nc"):
+                skip = ["nc_wildcard"] if op == "delete_shadow_nc" else None
                 metas = [(_packet_meaning(i) if i["kind"] == "ace" else None) for i in before_flat]
                 exact = all(m is None or sc.exact_domain(m) for m in metas)
                 corner = any(mi is not None and mj is not None and sc.full_cover_corner(mj, mi)
                              for a, mi in enumerate(metas) for mj in metas[a + 1:])
-                acl.delete_shadow()
+                acl.delete_shadow(skip) if skip else acl.delete_shadow()
                 if exact and not corner:
                     removed = {j for j, mj in enumerate(metas) if mj is not None and
-                               any(mi is not None and sc.truth(mj, mi) for mi in metas[:j])}
+                               any(mi is not None and sc.truth(mj, mi) and not sc.skipped(mj, mi, skip) for mi in metas[:j])}
                     pred = model.delete(removed)
                 else:
                     pred = "sublist"
